@@ -2,7 +2,7 @@
     Statement-only file.  [render n es] is the canonical slab of the entry list [es]
     in an [n]-byte buffer, [s_step]/[s_run] the effect of operations on the entry list
     (Tlv/Spec.v), [step]/[run] the byte-level model of state.rs (Tlv/Model.v). *)
-From SplVerif Require Import Lib.Base Tlv.Model Tlv.Spec Tlv.Walk Tlv.Parse Tlv.Ops Tlv.Refine Tlv.Corollaries.
+From SplVerif Require Import Lib.Base Tlv.Model Tlv.Spec Tlv.Walk Tlv.Parse Tlv.Ops Tlv.Refine Tlv.Corollaries Tlv.AnyTail.
 Local Open Scope N_scope.
 
 (** every history, from any canonical slab (in particular the zeroed buffer), of any
@@ -51,6 +51,26 @@ Proof. exact order_kept. Qed.
     [check_data] and the same lookups over the same bytes *)
 Theorem C01_reopen : forall n es, fits n es -> check_data (render n es) = Ok tt.
 Proof. exact check_data_canon. Qed.
+
+(** beyond canonical slabs: on ANY valid slab -- well-formed entries followed by an arbitrary tail that
+    starts with a terminator, e.g. a recycled buffer with garbage behind the zero tag -- a resize
+    succeeds / fails by the same rule and yields exactly the entry list with the target entry
+    zero-extended or truncated and every other entry untouched; growth consumes the first bytes of
+    the tail, shrinking leaves zeros in front of it.  An allocation puts the header right behind
+    the entries (its value region is whatever the tail held: alloc does not clear). *)
+Theorem C01_resize_any_valid_slab : forall es (tail : list byte) t r a v b l,
+  Forall wf_entry es -> term tail -> wf_tag t -> split_entry es t r = Some (a, v, b) ->
+  realloc (enc es ++ tail) t l r =
+  if (len v <? l) && (len (enc es ++ tail) <? len (enc es) + (l - len v)) then (enc es ++ tail, Err E_INVALID_ACCOUNT_DATA)
+  else if U32_LIMIT <=? l then (enc es ++ tail, Err E_TOO_SMALL)
+  else (enc (a ++ (t, resize l v) :: b) ++ tail_after tail (len v) l, Ok (voff a)).
+Proof. exact realloc_any_tail. Qed.
+Theorem C01_alloc_any_valid_slab : forall es (tail : list byte) t l a,
+  Forall wf_entry es -> term tail -> wf_tag t ->
+  (a || negb (has t es)) = true -> HDR + l <= len tail -> l < U32_LIMIT ->
+  alloc (enc es ++ tail) t l a =
+  (enc (es ++ [(t, firstn (N.to_nat l) (skipn 12 tail))]) ++ skipn (12 + N.to_nat l) tail, Ok (voff es, count t es)).
+Proof. exact alloc_any_tail. Qed.
 
 (** non-vacuity: a history with a repeated type, a grow and a shrink of the middle entry *)
 Example C01_nonvacuous :
